@@ -127,27 +127,34 @@ def r1(ctx, R):
         for mid in q.nodes_for(en, m):
             if mid in r:
                 R.bad(en, m, "a cached cells can reach the formula without the held-value test")
-    # hit path returns data[key]
+    # hit path returns data[key]: whatever is returned on the paths where both tests came out true
     rets = q.returns(en)
-    R.must(len(rets) == 1 and isinstance(rets[0].value, ast.Name), "eval_node: expected `return <name>`")
-    var = rets[0].value.id
-    hit_assign = []
-    for n in walk_local(en.node):
-        if isinstance(n, ast.Assign) and any(isinstance(t, ast.Name) and t.id == var for t in n.targets):
-            for nid in q.nodes_for(en, n):
-                if cfg.depends_on(nid, th.id, "T"):
-                    hit_assign.append(n)
+    R.must(rets, "eval_node: no return")
+    want_hit = "%s.data[%s]" % (obj, unparse(keyarg))
+    hit_run = q.run_abstract(en, lambda e: "T" if (e is th.ast or e is tc.ast) else None)
+    hit_vals = []
+    for r_ in rets:
+        if not any(i in hit_run for i in q.nodes_for(en, r_)):
+            continue
+        if isinstance(r_.value, ast.Name) and r_.value.id not in q.single_defs(en):
+            # a local assigned on several paths: the assignments that reach this return on a hit
+            for n in walk_local(en.node):
+                if isinstance(n, ast.Assign) and any(isinstance(t, ast.Name) and t.id == r_.value.id for t in n.targets) \
+                        and any(i in hit_run for i in q.nodes_for(en, n)) and q.path_between(en, n, r_):
+                    hit_vals.append((n, norm(n.value)))
+        else:
+            hit_vals.append((r_, norm(q.origin(en, r_.value))))
     R.inst("eval_node: hit path yields <obj>.data[<key>] of the tested object and key")
-    if len(hit_assign) != 1 or norm(hit_assign[0].value) != "%s.data[%s]" % (obj, unparse(keyarg)):
-        R.bad(en, hit_assign[0] if hit_assign else en.node,
-              "cache hit does not return %s.data[%s]" % (obj, unparse(keyarg)), stmt="hit value")
+    if not hit_vals or any(v != want_hit for _, v in hit_vals):
+        R.bad(en, hit_vals[0][0] if hit_vals else en.node, "cache hit does not return %s" % want_hit, stmt="hit value")
     else:
-        # nothing on the hit path re-binds the value before return
-        for n in walk_local(en.node):
-            if isinstance(n, ast.Assign) and n is not hit_assign[0] and any(
-                    isinstance(t, ast.Name) and t.id == var for t in n.targets):
-                if q.path_between(en, hit_assign[0], n):
-                    R.bad(en, n, "held value is replaced after the cache hit")
+        # the held value is read only when both tests came out true
+        for tn in (th, tc):
+            other = q.run_abstract(en, lambda e, tn=tn: "F" if e is tn.ast else None)
+            for n, _ in hit_vals:
+                if any(i in other for i in q.nodes_for(en, n)):
+                    R.bad(en, n, "the held value is read although `%s` is false (KeyError, or a value served for an "
+                                 "uncached cells)" % norm(tn.ast))
     # container agreement
     table = {}
     for cname, cont in (("CellsImpl", "data"), ("ItemSpaceParent", "param_spaces")):
@@ -275,9 +282,12 @@ def r3(ctx, R):
     ok = False
     for r_ in rets:
         k = q.resolve(gn, r_.value.elts[1])
-        if isinstance(k, ast.Call) and call_name(k) == "_bind_args" and [norm(a) for a in k.args] == ["obj", "args", "kwargs"] \
-                and norm(r_.value.elts[0]) == "obj":
-            ok = True
+        if isinstance(k, ast.Call) and call_name(k) == "_bind_args" and len(k.args) == 3 and not k.keywords \
+                and [norm(a) for a in k.args[:2]] == ["obj", "args"] and norm(r_.value.elts[0]) == "obj":
+            # third argument: the caller's kwargs, with None replaced by an empty mapping
+            alts = sorted((norm(v), tuple(sorted(g))) for v, g in q.arms(gn, k.args[2]))
+            if alts in ([("kwargs", ())], [("kwargs", (("kwargs is None", "F"),)), ("{}", (("kwargs is None", "T"),))]):
+                ok = True
     if not ok:
         R.bad(gn, gn.node, "get_node no longer returns (obj, _bind_args(obj, args, kwargs))", stmt="return")
     R.inst("get_node: kwargs=None is replaced by an empty mapping, never dropped when given")
